@@ -60,7 +60,7 @@ def names_cases():
 
 def bounds(tier):
     return {'designs': 'OP (all ops but nand) widths %s, EXPR %d, SEQ, MISC, NAMES (8 adversarial name sets)' % (
-        [1, 2, 3, 4, 5, 8] if tier == 'quick' else designs.WT, 20 if tier == 'quick' else 100), 'K': 3 if tier == 'quick' else 5,
+        [1, 2, 3, 4, 5, 8] if tier == 'quick' else designs.WT, 20 if tier == 'quick' else 400), 'K': 3 if tier == 'quick' else 5,
         'add_reset': RESETS, 'testbench trace sources': ['sim', 'fast', 'compiled']}
 
 
@@ -77,14 +77,14 @@ def cases(tier, seed):
     base += [dict(c, reset=(1 << c['wd']) - 1) for c in designs.op_cases([3, 8, 40], ops='w', dests=('reg',))]
     base += designs.seq_cases(widths=(1, 4) if tier == 'quick' else (1, 4, 8, 65))
     base += designs.misc_cases() + names_cases()
-    base += designs.expr_cases(20 if tier == 'quick' else 100, seed + 41, n=7, maxw=6, ops=['+', '-', '*', '&', '|', '^', '~', '<', '>', '=', 'x', 'c', 's', 'trunc', 'const'])
+    base += designs.expr_cases(20 if tier == 'quick' else 400, seed + 41, n=7, maxw=6, ops=['+', '-', '*', '&', '|', '^', '~', '<', '>', '=', 'x', 'c', 's', 'trunc', 'const'])
     base += [{'fam': 'MEM', 'aw': 2, 'bw': 4, 'nr': 2, 'nw': 2}, {'fam': 'MEM', 'aw': 3, 'bw': 70, 'nr': 1, 'nw': 1, 'read_own_write': True},
              {'fam': 'ROM', 'aw': 3, 'bw': 5, 'data': 'list', 'nr': 2}, {'fam': 'ROM', 'aw': 2, 'bw': 40, 'data': 'func', 'nr': 1}]
     base.append({'fam': 'BIGCONST'})
     for i, c in enumerate(base):
         for ar in (RESETS if (c['fam'] in ('NAMES', 'SEQ', 'MISC') or c.get('dest') == 'reg') else [RESETS[i % 3]]):
             out.append(dict(c, k='module', K=K, add_reset=ar))
-    tb_base = designs.seq_cases(widths=(4,)) + names_cases() + designs.expr_cases(8 if tier == 'quick' else 40, seed + 43, n=6, maxw=5,
+    tb_base = designs.seq_cases(widths=(4,)) + names_cases() + designs.expr_cases(8 if tier == 'quick' else 160, seed + 43, n=6, maxw=5,
                                                                                  ops=['+', '-', '&', '|', '^', '~', '<', 'x', 'c', 's', 'trunc', 'const'])
     tb_base += [{'fam': 'MEM', 'aw': 2, 'bw': 4, 'nr': 1, 'nw': 1}, {'fam': 'ROM', 'aw': 2, 'bw': 5, 'data': 'list', 'nr': 1}]
     for i, c in enumerate(tb_base):
